@@ -27,12 +27,15 @@ Rec == ndJsonDeserialize(IOEnv.TRACE)
 
 Ids == {"a", "b"}
 
+\* which protocol model is replayed: the as-built one, or the one with proposed_fixes/S27a.diff
+FixEnv == IF "FIX" \in DOMAIN IOEnv THEN IOEnv.FIX ELSE "none"
+
 VARIABLES pg, idb, app, closed, sched,   \* Browser.tla
           l, info, drift, odocs, ok, ores
 
 B == INSTANCE Browser WITH IdSet <- Ids, MaxCommits <- 1000,
                            SegFiles <- <<"docs", "post", "terms", "fast", "meta">>,
-                           TaskOrder <- "any", IdbOrder <- "any", Bug <- "none", Fix <- "none"
+                           TaskOrder <- "any", IdbOrder <- "any", Bug <- "none", Fix <- FixEnv
 
 bvars == <<pg, idb, app, closed, sched>>
 vars == <<pg, idb, app, closed, sched, l, info, drift, odocs, ok, ores>>
